@@ -927,6 +927,7 @@ type PortStatus struct {
 func NewPortStatus() *PortStatus {
 	p := new(PortStatus)
 	p.Header = NewOfp13Header()
+	p.Header.Type = Type_PortStatus
 	p.pad = make([]byte, 7)
 	p.Desc = *NewPhyPort()
 	return p
